@@ -24,11 +24,12 @@ def module_info(path):
 def main():
     props = [json.loads(l) for l in open(os.path.join(HERE, "properties.jsonl"))]
     checks, na = [], []
+    claimed = set(open(os.path.join(HERE, "vt", "claimed.txt")).read().split())
     for p in props:
         pid = p["id"]
         path = os.path.join(HERE, "vt", "props", pid.lower() + ".py")
         info = module_info(path) if os.path.exists(path) else None
-        if not info or "MANIFEST" not in info:
+        if not info or "MANIFEST" not in info or pid not in claimed:
             reason = (info or {}).get("NOT_APPLICABLE") or "check not built yet in this framework (planned design in DESIGN.md section for %s)" % pid
             na.append({"property_id": pid, "reason": reason})
             continue
@@ -57,7 +58,7 @@ def main():
         "engines": [
             {"name": "E", "path": "vt/props", "kind_free_text": "exhaustive enumeration of a finite input domain against an independent reference"},
             {"name": "H", "path": "vt/hbfs.py", "kind_free_text": "explicit-state BFS over operation histories on the real objects, reference model stepped alongside"},
-            {"name": "K", "path": "vt/crash.py", "kind_free_text": "crash-point enumeration: kill at every file-system mutation call, restart, check invariant"},
+            {"name": "K", "path": "vt/lib_crash.py", "kind_free_text": "crash-point enumeration: kill at every file-system mutation call, restart, check invariant"},
             {"name": "G", "path": "vt/grid.py", "kind_free_text": "virtual grid: real clients and storage servers under a controlled scheduler; deviation-bounded stateless exploration of delivery orders, faults and timers"},
         ],
         "checks": checks,
